@@ -744,7 +744,8 @@ impl Number {
         let whole = value.trunc() as u32;
         let decimal = value.fract();
 
-        if whole > max_whole || whole == u32::MAX {
+        // compared as f64 because `as u32` saturates
+        if value.trunc() > max_whole as f64 {
             return None;
         }
 
@@ -754,7 +755,7 @@ impl Number {
 
         let rounded = value.round() as u32;
         let round_err = value - value.round();
-        if round_err.abs() < max_err && rounded > 0 && rounded <= max_whole {
+        if round_err.abs() < max_err && rounded > 0 && value.round() <= max_whole as f64 {
             return Some(Self::Fraction {
                 whole: rounded,
                 num: 0,
